@@ -77,8 +77,8 @@ pub fn check(tier: Tier) -> i32 {
     let budget = Budget::new(wall_cap(tier));
     rep.mandatory_scopes = 1;
     let bounds: Vec<(usize, usize)> = match tier {
-        Tier::Quick => vec![(3, 2), (4, 1)],
-        Tier::Thorough => vec![(4, 2), (5, 1)],
+        Tier::Quick => vec![(4, 2), (5, 1)],
+        Tier::Thorough => vec![(4, 3), (5, 2), (6, 1)],
     };
     let mut states = 0u64;
     for (s, d) in bounds {
